@@ -260,7 +260,7 @@ Theorem solve_sound a hb c t :
   (min_a_R <= Rabs a \/ a = 0) ->
   In (Some t) (isect2_list (solve_general (T:=R) a hb c false)) -> 0 < t /\ qpoly a hb c t = 0.
 Proof. intros H. apply solve_sound_gen. destruct H as [H|H]; auto. Qed.
-(** before the repair 8462ce5 (`< 0`) the start point had to be off the surface *)
+(** before the repair cd06731 (`< 0`) the start point had to be off the surface *)
 Theorem solve_sound_before_repair a hb c t :
   (min_a_R <= Rabs a \/ (a = 0 /\ c <> 0)) ->
   In (Some t) (isect2_list (solve_general_gen (T:=R) false a hb c false)) -> 0 < t /\ qpoly a hb c t = 0.
